@@ -11,6 +11,7 @@ import (
 	"fmt"
 	"net/http"
 	"strings"
+	"time"
 
 	"github.com/Cloud-Foundations/keymaster/vf/vclock"
 	"github.com/Cloud-Foundations/keymaster/vf/vfeng"
@@ -106,8 +107,58 @@ func c01HasSigned(body []byte) bool {
 }
 
 type c01Memo struct {
-	q vfReq
-	t vfTruth
+	q     vfReq
+	t     vfTruth
+	parts []vfTruth // component truths of a multi-credential request
+}
+
+// c01MayCombo: a request carrying several credentials may be served when one
+// valid component alone justifies it, or when the factors of all valid
+// components of the target user taken together do.
+func c01MayCombo(cfg []string, parts []vfTruth, target, method string, sealed bool) bool {
+	merged := vfTruth{Valid: false, User: target}
+	for _, t := range parts {
+		if c01May(cfg, t, target, method, sealed) {
+			return true
+		}
+		if t.Valid && t.User == target {
+			merged.Valid = true
+			merged.Level |= t.Level
+		}
+	}
+	return c01May(cfg, merged, target, method, sealed)
+}
+
+// c01Combos lists the multi-credential requests: a primary credential
+// accompanied by each session-cookie shape (both cookie orders when the
+// primary is itself a cookie).
+func c01Combos(shapeList []vfCredShape) []string {
+	var r []string
+	for _, prim := range []string{"kmcert-good", "kmcert-other-user", "kmcert-expired", "basic-good", "basic-badpw", "cookie-good-pwonly", "rolecert-inside-automation"} {
+		for _, s := range shapeList {
+			if !strings.HasPrefix(s.Name, "cookie-") {
+				continue
+			}
+			r = append(r, prim+"+"+s.Name)
+			if strings.HasPrefix(prim, "cookie-") {
+				r = append(r, s.Name+"+"+prim)
+			}
+		}
+	}
+	return r
+}
+
+func c01Shapes() ([]vfCredShape, map[string]vfCredShape) {
+	shapeList := vfCredShapes()
+	shapes := map[string]vfCredShape{}
+	for _, s := range shapeList {
+		shapes[s.Name] = s
+	}
+	shapes["cookie-good-pwonly"] = cookieShape("cookie-good-pwonly", func(w *vfWorld) (string, vfTruth) {
+		c := w.authClaims("alice", AuthTypePassword)
+		return w.signClaims(c), vfTruth{Valid: true, User: "alice", Level: AuthTypePassword, AuthTime: time.Unix(c.IssuedAt, 0)}
+	})
+	return shapeList, shapes
 }
 
 // c01RunE2E executes one end-to-end point.
@@ -116,8 +167,23 @@ func c01RunE2E(w *vfWorld, memo map[string]c01Memo, shapes map[string]vfCredShap
 	m, ok := memo[p.Shape]
 	if !ok {
 		var q vfReq
-		t := shapes[p.Shape].Apply(w, &q)
-		m = c01Memo{q, t}
+		var t vfTruth
+		if parts := strings.Split(p.Shape, "+"); len(parts) > 1 {
+			// several credentials on one request, applied in the listed order
+			var ts []vfTruth
+			for _, nm := range parts {
+				ts = append(ts, shapes[nm].Apply(w, &q))
+			}
+			m = c01Memo{q: q, parts: ts}
+			t = vfTruth{Kind: "combo"}
+			for _, x := range ts {
+				t.Kind += ":" + x.Kind
+				t.DontCare = t.DontCare || x.DontCare
+			}
+		} else {
+			t = shapes[p.Shape].Apply(w, &q)
+		}
+		m.q, m.t = q, t
 		if memo != nil {
 			memo[p.Shape] = m
 		}
@@ -137,6 +203,9 @@ func c01RunE2E(w *vfWorld, memo map[string]c01Memo, shapes map[string]vfCredShap
 	issued := resp.Code/100 == 2 || c01HasSigned(resp.Body)
 	may := c01May(p.Cfg, m.t, p.Target, p.Method, p.Sealed)
 	must := c01Must(p.Cfg, m.t, p.Target, p.Method, p.Sealed) && (p.Type == "ssh" || p.Type == "x509")
+	if m.parts != nil {
+		may, must = c01MayCombo(p.Cfg, m.parts, p.Target, p.Method, p.Sealed), false
+	}
 	site := "certGenHandler"
 	switch {
 	case m.t.DontCare:
@@ -215,7 +284,7 @@ func init() {
 		Rule: "exhaustive finite products on the real certGenHandler: (decision) all 2^9 method-name subsets x all 2^11 cookie level bit sets, key-less POST, admitted iff the handler proceeds to key parsing; (e2e) credential shapes x configurations x certificate types x HTTP methods x sealed/unsealed with a real RSA-2048 key; oracle mayIssue/mustIssue written from the statement; a class is (part, credential kind, issued/admitted, may, status)",
 		Assumptions: []string{"listing `password` means any currently valid credential suffices; a keymaster-issued client certificate qualifies only through `password` (DESIGN 2.5)", "liveness is asserted only for the seven method names the certificate endpoint documents (password, U2F, SymantecVIP, IPCertificate, TOTP, Okta2FA, WebauthForCLI); `federated`/`BootstrapOTP` listed for certificates are recorded as unhonoured, not judged", "boundary shapes (exp == now, audience listing this server second, empty subject) are observed but not judged"},
 		Bounds: func(tier string) map[string]interface{} {
-			return map[string]interface{}{"cfg_subsets_decision": 512, "levels": 2048, "e2e_cfgs": len(c01Cfgs(tier == "thorough")), "shapes": len(vfCredShapes())}
+			return map[string]interface{}{"cfg_subsets_decision": 512, "levels": 2048, "e2e_cfgs": len(c01Cfgs(tier == "thorough")), "shapes": len(vfCredShapes()), "multi_credential_requests": len(c01Combos(vfCredShapes()))}
 		},
 		Shards: func(tier string) int { return 16 },
 		Run: func(c *vfeng.Ctx) {
@@ -257,11 +326,7 @@ func init() {
 			}
 			w.Close()
 			// ---- end-to-end product
-			shapeList := vfCredShapes()
-			shapes := map[string]vfCredShape{}
-			for _, s := range shapeList {
-				shapes[s.Name] = s
-			}
+			shapeList, shapes := c01Shapes()
 			cfgs := c01Cfgs(c.Thorough())
 			i := 0
 			for _, sealed := range []bool{false, true} {
@@ -296,6 +361,27 @@ func init() {
 						}
 					}
 				}
+				if !sealed {
+					// multi-credential requests (POST, unsealed)
+					for _, name := range c01Combos(shapeList) {
+						for _, cfg := range cfgs {
+							for _, typ := range []string{"ssh", "x509"} {
+								i++
+								if !c.Mine(i) {
+									continue
+								}
+								p := c01Point{Part: "e2e", Cfg: cfg, Shape: name, Type: typ, Method: "POST", Target: "alice"}
+								v, key, what, class := c01RunE2E(w, memo, shapes, p)
+								c.Eval(1)
+								if v {
+									c.Violate(key, what, p)
+								} else {
+									c.Class(class, p)
+								}
+							}
+						}
+					}
+				}
 				w.Close()
 			}
 		},
@@ -313,10 +399,7 @@ func init() {
 			}
 			w := c01World(p.Sealed)
 			defer w.Close()
-			shapes := map[string]vfCredShape{}
-			for _, s := range vfCredShapes() {
-				shapes[s.Name] = s
-			}
+			_, shapes := c01Shapes()
 			v, key, what, class := c01RunE2E(w, nil, shapes, p)
 			return v, key + " :: " + what + class
 		},
